@@ -262,3 +262,27 @@ def initSim (prog : Prog) (t0 : Nat) (tol : Option Nat) : St :=
   (doSync prog t0 (writeTime t0 (St.init t0 tol))).1
 
 end NexoVerif.Sched
+
+namespace NexoVerif.Sched
+
+/-- Driver commands (the public API of `Simulation` / `Scheduler` that this model covers). -/
+inductive Cmd
+  | sched (r : SchedReq)          -- Scheduler::schedule* (any thread; atomic under the queue lock)
+  | cancel (k : Nat)              -- ActionKey::cancel / AutoActionKey drop
+  | step
+  | stepUntil (target : Nat)
+  | process (aid m : Nat)         -- process_event
+deriving Repr
+
+def exec (prog : Prog) (ord : Oracle) (s : St) : Cmd → St × Res
+  | .sched r => sched s r
+  | .cancel k => (cancelKey s k, .ok)
+  | .step => step prog ord s
+  | .stepUntil t => stepUntil prog ord t s
+  | .process a m => processEvent prog a m s
+
+/-- state after a command sequence -/
+def run (prog : Prog) (ord : Oracle) (s : St) (cmds : List Cmd) : St :=
+  cmds.foldl (fun s c => (exec prog ord s c).1) s
+
+end NexoVerif.Sched
